@@ -462,7 +462,7 @@ class Walker:
             p = self.fstr(call.args[1], "?")
         except Opaque:
             p = ast.unparse(call.args[1])
-        self.opaque.append({"line": call.lineno, "path": p, "why": why})
+        self.opaque.append({"line": call.lineno, "path": p, "why": why, "msg": ast.unparse(call.args[2])})
 
     def cur_conds(self):
         return list(self.conds)
@@ -829,6 +829,29 @@ def suggest_facts(mod: ast.Module) -> Dict[str, bool]:
     return facts
 
 
+def duplicate_capable_sites(fn: ast.FunctionDef) -> Dict[str, List[str]]:
+    """`_err` sites that can put the SAME line into the error list more than once:
+    `same` = one (path, message) source text reported by two or more sites;
+    `loop` = a site inside a data-driven `for` loop (one line per offending element)."""
+    sites: List[Tuple[str, str, bool, int]] = []
+
+    def visit(node, in_loop):
+        for ch in ast.iter_child_nodes(node):
+            loop = in_loop
+            if isinstance(ch, ast.For) and not isinstance(ch.iter, (ast.Tuple, ast.List)):
+                loop = True
+            if isinstance(ch, ast.Call) and isinstance(ch.func, ast.Name) and ch.func.id == "_err" and len(ch.args) == 3:
+                sites.append((ast.unparse(ch.args[1]), ast.unparse(ch.args[2]), in_loop, ch.lineno))
+            visit(ch, loop)
+    visit(fn, False)
+    count: Dict[Tuple[str, str], int] = {}
+    for p, m, _l, _n in sites:
+        count[(p, m)] = count.get((p, m), 0) + 1
+    same = sorted({p.strip("'\"") for (p, m), c in count.items() if c >= 2})
+    loop = sorted({p for p, _m, l, _n in sites if l})
+    return {"same": same, "loop": loop}
+
+
 def translate(repo: Path) -> dict:
     mod = ast.parse((repo / SRC).read_text())
     consts = module_consts(mod)
@@ -842,7 +865,8 @@ def translate(repo: Path) -> dict:
             r["aliases"] = alias_paths(r)
     total_err = sum(1 for n in ast.walk(fn) if isinstance(n, ast.Call) and isinstance(n.func, ast.Name) and n.func.id == "_err")
     return {"consts": consts, "rules": w.rules, "opaque": w.opaque, "hash_sites": w.hash_sites,
-            "facts": suggest_facts(mod), "total_err_sites": total_err, "touched": w.touched}
+            "facts": suggest_facts(mod), "total_err_sites": total_err, "touched": w.touched,
+            "dup_sites": duplicate_capable_sites(fn)}
 
 
 # ---- Lean emission ---------------------------------------------------------
@@ -975,6 +999,7 @@ def summary(t: dict) -> dict:
             "hash_order_sites": len(t["hash_sites"]), "suggest_sorted": t["facts"]["sorted"],
             "suggest_strwrap": t["facts"]["strwrap"],
             "undocumented_num_rules": [r["path"] for r in t["rules"] if r["kind"] == "num" and r["doc"] is None],
+            "duplicate_capable_sites": {k: len(v) for k, v in t.get("dup_sites", {}).items()},
             "rewritten_after_check": [r["path"] for r in t["rules"] if r["kind"] == "num" and r.get("rewritten")],
             "alias_rules": {r["path"]: [".".join(a) for a in r["aliases"]] for r in t["rules"]
                             if r["kind"] == "num" and r.get("aliases")}}
